@@ -33,7 +33,7 @@ pub fn budget_for(groups: &[RuleGroup], words: &[String]) -> u64 {
 }
 
 /// rule profile of the zero-tolerance structured source (constructs behind known findings are excluded by construction)
-pub const SAFE: RuleProfile = RuleProfile { insertion: false, input_ellipsis: false, input_bound: false, out_struct: false, uneven: false, ..RuleProfile::FULL };
+pub const SAFE: RuleProfile = RuleProfile { insertion: false, input_ellipsis: false, input_bound: false, out_struct: false, uneven: false, out_length_multi: false, ..RuleProfile::FULL };
 
 // ---- generators -------------------------------------------------------------------------------
 
